@@ -357,3 +357,9 @@ Proof. vm_compute. split; reflexivity. Qed.
 
 Lemma src_beacon_common mobile : CommonHeader_initialize_beacon mobile = (0, 1, 0, 0, mobile, 0, 1, 0).
 Proof. reflexivity. Qed.
+
+(* ---- BTP header of a request: destination port first, then source port (BTP-A) / destination port info (BTP-B) ---------- *)
+Lemma src_btp_for_request dp x : 0 <= dp < 65536 -> 0 <= x < 65536 ->
+  (let '(a, b) := BTPA_initialize_with_request dp x in BTPA_encode a b) = Some (enc_btp [dp; x]) /\
+  (let '(a, b) := BTPB_initialize_with_request dp x in BTPB_encode a b) = Some (enc_btp [dp; x]).
+Proof. intros H1 H2. split; [exact (src_btpa_encode dp x H1 H2) | exact (src_btpb_encode dp x H1 H2)]. Qed.
